@@ -63,6 +63,14 @@ func Load(cfg Config) (*Prog, error) {
 	if cfg.GOARCH != "" {
 		env = append(env, "GOARCH="+cfg.GOARCH)
 	}
+	// type aliases are transparent to every rule: `type state = [729]uint` must not rename what terms and signatures
+	// print (go/types then records no Alias nodes; read when a type checker is created)
+	if gd := os.Getenv("GODEBUG"); !strings.Contains(gd, "gotypesalias=") {
+		if gd != "" {
+			gd += ","
+		}
+		os.Setenv("GODEBUG", gd+"gotypesalias=0")
+	}
 	WordBits = 64
 	switch cfg.GOARCH {
 	case "386", "arm", "mips", "mipsle", "wasm":
